@@ -96,6 +96,7 @@ def parseOp (line : String) : Option Op :=
   | ["drain"] => some .drain
   | ["finish"] => some .finish
   | ["line", h] => (unhex h).map .line
+  | ["wpipe", h] => (unhex h).map .wpipe
   | ["getchar"] => some (.getchar false)
   | ["getchar", "noecho"] => some (.getchar true)
   | ["inputto"] => some (.inputto false)
